@@ -30,7 +30,7 @@ func zzChunks(tag string, maxChunks int) []index.Data {
 		res[i].Content = zz.Bytes(tag+".c", l)
 		t = t.Add([]time.Duration{time.Microsecond, 0, 1500 * time.Millisecond}[zz.Choice(tag+".dt", zz.Param("dts", 3))])
 		res[i].Time = t
-		res[i].ContentType = []string{"", "a", "bc"}[zz.Choice(tag+".ct", zz.Param("ctypes", 2))]
+		res[i].ContentType = []string{"", "bc", "a"}[zz.Choice(tag+".ct", zz.Param("ctypes", 2))]
 	}
 	return res
 }
